@@ -84,12 +84,16 @@ func (b *Blockstore) Has(ctx context.Context, cid cid.Cid) (bool, error) {
 	return has, nil
 }
 
+// Put is a no-op: Blockstore is a read-only view over the EDS store, which is only ever written
+// with whole squares. Blocks fetched over Bitswap (e.g. by the Getter of a node that wires this
+// Blockstore in) are not persisted through it.
 func (b *Blockstore) Put(context.Context, blocks.Block) error {
-	panic("not implemented")
+	return nil
 }
 
+// PutMany is a no-op, see Put.
 func (b *Blockstore) PutMany(context.Context, []blocks.Block) error {
-	panic("not implemented")
+	return nil
 }
 
 func (b *Blockstore) DeleteBlock(context.Context, cid.Cid) error {
